@@ -41,11 +41,13 @@ noncomputable def quad (u v a b theta : ℝ) : ℝ :=
 theorem quad_nonneg (u v a b theta : ℝ) : 0 ≤ quad u v a b theta := by
   unfold quad; positivity
 
-/-- `elliptical_gaussian` is `amp · exp(−Q/2)` with `Q` the rotated quadratic form -/
+/-- `elliptical_gaussian` is `amp · exp(−Q/2)` with `Q` the rotated quadratic form.
+    (The hand definitions are unfolded as well, so that the proof also compiles when the translator reports
+    UNTRANSLATABLE and `Gen.C14.gauss` is the fallback `gaussHand`.) -/
 theorem gauss_eq (x y amp xo yo sx sy theta : ℝ) :
     Gen.C14.gauss x y amp xo yo sx sy theta
       = amp * Real.exp (-(quad (x - xo) (y - yo) sx sy theta) / 2) := by
-  simp only [Gen.C14.gauss, quad, cs, sn, R.real_radians, R.real_sin, R.real_cos, R.real_exp,
+  simp only [Gen.C14.gauss, gaussHand, quad, cs, sn, R.real_radians, R.real_sin, R.real_cos, R.real_exp,
     R.real_npow, R.real_ofNat, R.real_ofSci]
   have h5 : (OfScientific.ofScientific 5 true 1 : ℝ) = 1 / 2 := by norm_num
   try simp only [h5]
@@ -56,24 +58,34 @@ theorem gauss_eq (x y amp xo yo sx sy theta : ℝ) :
 
 theorem xoff_eq (sx sy theta : ℝ) :
     Gen.C14.xoff sx sy theta = 5 * (|sx * cs theta| + |sy * sn theta|) := by
-  simp only [Gen.C14.xoff, cs, sn, R.real_radians, R.real_sin, R.real_cos, R.real_abs, R.real_ofNat]
+  simp only [Gen.C14.xoff, xoffHand, cs, sn, R.real_radians, R.real_sin, R.real_cos, R.real_abs, R.real_ofNat]
   push_cast; ring
 
 theorem yoff_eq (sx sy theta : ℝ) :
     Gen.C14.yoff sx sy theta = 5 * (|sx * sn theta| + |sy * cs theta|) := by
-  simp only [Gen.C14.yoff, cs, sn, R.real_radians, R.real_sin, R.real_cos, R.real_abs, R.real_ofNat]
+  simp only [Gen.C14.yoff, yoffHand, cs, sn, R.real_radians, R.real_sin, R.real_cos, R.real_abs, R.real_ofNat]
   push_cast; ring
 
-/-- the call convention of `make_model`: centre `(xo−1, yo−1)`, sigmas `sx·FWHM2CC`, `sy·FWHM2CC`,
-    `x` = row index first, `y` = column index second, amplitude = the catalogued peak -/
+/-- the value `make_model` adds, in canonical form: centre `(xo−1, yo−1)`, sigmas `sx·FWHM2CC`, `sy·FWHM2CC`,
+    `x` = row index first, `y` = column index second, amplitude = the catalogued peak.  Proved by unfolding
+    whatever the translator produced (the regenerated call into the regenerated Gaussian, or either fallback). -/
+theorem modelVal_canon (k peak xo yo sx sy theta x y : ℝ) :
+    Gen.C14.modelVal k peak xo yo sx sy theta x y
+      = peak * Real.exp (-(quad (x - (xo - 1)) (y - (yo - 1)) (sx * k) (sy * k) theta) / 2) := by
+  simp only [Gen.C14.modelVal, modelValHand, Gen.C14.gauss, gaussHand, quad, cs, sn, R.real_radians, R.real_sin,
+    R.real_cos, R.real_exp, R.real_npow, R.real_ofNat, R.real_ofSci]
+  have h5 : (OfScientific.ofScientific 5 true 1 : ℝ) = 1 / 2 := by norm_num
+  try simp only [h5]
+  have key : ∀ a b : ℝ, a = b → peak * Real.exp a = peak * Real.exp b := fun a b h => by rw [h]
+  first
+    | (apply key; push_cast; ring)
+    | (rw [mul_comm (Real.exp _) peak]; apply key; push_cast; ring)
+
+/-- the call convention of `make_model`, stated against the regenerated Gaussian -/
 theorem modelVal_eq (k peak xo yo sx sy theta x y : ℝ) :
     Gen.C14.modelVal k peak xo yo sx sy theta x y
       = Gen.C14.gauss x y peak (xo - 1) (yo - 1) (sx * k) (sy * k) theta := by
-  simp only [Gen.C14.modelVal, R.real_ofNat]
-  push_cast
-  first
-    | rfl
-    | (congr 1 <;> ring)
+  rw [modelVal_canon, gauss_eq]
 
 /-- **gaussian_peak**: the value at the centre is the amplitude -/
 theorem gaussian_peak (amp xo yo sx sy theta : ℝ) :
